@@ -71,6 +71,33 @@ def build(env, reps):
             s.call("decap", skr=k.serialize_private(skR), enc=enc, cls="ref-plain", want=cl.hexs(ss))
             ss, enc = k.encap(pkR, g.raw(n), skS)
             s.call("decap", skr=k.serialize_private(skR), enc=enc, pks=k.serialize_public(pkS), cls="ref-auth", want=cl.hexs(ss))
+    # --- Diffie-Hellman results with special shapes (x = 0, tiny x, leading zero bytes; X25519 outputs full of zero bytes):
+    # the peer key is constructed so that the DH value with the key derived from the given ikm / RNG bytes is the target
+    import random
+    from lib import directed
+    for kem in gen.KEMS:
+        k = R.KEMS[kem]
+        n = gen.nsk(kem)
+        s = cw.session(kem, k.kdf_id, 1, sid="sd%04x" % kem)
+        ikmR, rngE = g.raw(n), g.raw(n)
+        skR, _ = k.derive_key_pair(ikmR)
+        skE, _ = k.derive_key_pair(rngE)
+        s.call("derive_keypair", ikm=ikmR, out="kR")
+        gen.add_keys(s, g, kem, "kS")
+        if k.curve is None:
+            peers_R = [(nm, enc) for nm, enc, _ in directed.x25519_structured_outputs(random.Random(env.rnd.getrandbits(32)), skR)]
+            peers_E = [(nm, pk) for nm, pk, _ in directed.x25519_structured_outputs(random.Random(env.rnd.getrandbits(32)), skE)]
+        else:
+            c = k.curve
+            tg = directed.nist_special_dh_targets(c, env.rnd)
+            peers_R = [(nm, c.encode_public(directed.nist_peer_for_dh_x(c, skR, x))) for nm, x in tg]
+            peers_E = [(nm, c.encode_public(directed.nist_peer_for_dh_x(c, skE, x))) for nm, x in tg]
+        for nm, enc in peers_R:
+            s.call("decap", skr="$kR.sk", enc=enc, cls="dh:" + nm)
+            s.call("decap", skr="$kR.sk", enc=enc, pks="$kS.pk", cls="dh:" + nm)
+        for nm, pk in peers_E:
+            s.call("encap", pkr=pk, rng=rngE.hex() + "aa" * 8, cls="dh:" + nm)
+            s.call("encap", pkr=pk, sks="$kS.sk", pks="$kS.pk", rng=rngE.hex() + "aa" * 8, cls="dh:" + nm)
     return cw
 
 
